@@ -91,6 +91,9 @@ def run(ctx):
         "handlers from 7 kinds of source. A case is a distinct (document, handler, source) or (instance, writer)."
     )
     ctx.assumptions += ["well-formed input only (lxml's recovery mode is expected to differ on malformed input)"]
+    from .. import xmlshape_bind
+
+    xmlshape_bind.run_matrix(ctx, "C08")   # spec/XmlShape.tla: field kinds x XML shapes x positions
     tol = c03.tolerated(ctx)
     mc = ctx.pick(dict(depth=2, events=6, attrs=1), dict(depth=3, events=7, attrs=2, indents="{FALSE, TRUE}"))
     cfg = writer_cfg("mc", tolerated=tol, **mc)
